@@ -534,7 +534,7 @@ def project(text, root, pkgdir):
 
 def run_traced(shoot, cwd, args, tracefile, timeout=60):
     """run shoot under strace -f; returns dict(rc, out, err, timed_out)"""
-    cmd = ["strace", "-f", "-y", "-xx", "-s", "4000000", "-e", "trace=" + STRACE_SET, "-o", str(tracefile),
+    cmd = ["strace", "-f", "--seccomp-bpf", "-y", "-xx", "-s", "4000000", "-e", "trace=" + STRACE_SET, "-o", str(tracefile),
            str(shoot)] + list(args)
     env = lib.go_env()
     try:
